@@ -570,3 +570,104 @@ Proof.
   assert (LB : length B = np) by (subst B np; eapply map2_length; exact Wp).
   destruct (split_roles A B C) as [S1 [S2 S3]]. rewrite LA, LB in *. rewrite S1, S2, S3, title_add_nl. reflexivity.
 Qed.
+
+(* the expected values above are those of the block theorems *)
+Corollary mol2_block_roundtrip mapping g fs : wf_wmol2 g fs ->
+  exists lines, write_mol_v2000 mapping g = Ok lines /\
+    forall tail, lift2 (parse_mol_v2000 (map add_nl lines ++ tail)) = Ok (expected_mol2 mapping g fs).
+Proof.
+  intros W. destruct W.
+  destruct (v2000_fields_roundtrip_tail mapping g fs w2_atoms0 w2_ne0 w2_na0 w2_nb0 w2_nd0 w2_bonds0 w2_wedge0 w2_cnt0) as [ls [Hw Hp]].
+  exists ls. split; [exact Hw|]. intros tail. rewrite Hp. reflexivity.
+Qed.
+Corollary ctab3_block_roundtrip mapping g fs : wf_wmol3 g fs ->
+  exists lines, write_ctab_v3000 mapping g = Ok lines /\
+    forall tail, parse_ctab_v3000 None (map add_nl lines ++ tail) = Ok (expected_ctab3 mapping g fs).
+Proof.
+  intros W. destruct W.
+  destruct (v3000_ctab_roundtrip_tail mapping g fs w3_atoms0 w3_ne0 w3_nd0 w3_bonds0 w3_wedge0 w3_cnt0) as [ls [Hw Hp]].
+  exists ls. split; [exact Hw|]. intros tail. apply Hp.
+Qed.
+
+(* ================================================================================================ *)
+(** * Part E: concrete instances (2 reactants, 1 product, 1 reagent; the reagent is NAMED "$MOL" and the tail, which
+      stands for the metadata lines of the RDF record, contains lines that look like markers) *)
+
+Definition ex_mol_named (name : str) (g : wmol) : wmol := mk_wmol name (wm_atoms g) (wm_wedge g) (wm_bonds g).
+Definition ex_tail : list str := map add_nl [L "$DTYPE key"; L "$DATUM value"; L "$MOL"; L "M  V30 BEGIN CTAB"; L "M  END"].
+
+Lemma ex_wf2 name : wf_wmol2 (ex_mol_named name ex_mol) ex_fs.
+Proof.
+  destruct ex_hypotheses as [H1 [H2 [H3 [H4 [H5 [H6 [H7 H8]]]]]]]. constructor; assumption.
+Qed.
+Lemma ex_wf3 name : wf_wmol3 (ex_mol_named name ex3_mol) ex3_fs.
+Proof.
+  destruct ex3_hypotheses as [H1 [H2 [H3 [H4 [H5 H6]]]]]. constructor; assumption.
+Qed.
+
+Definition ex_rxn2 : wrxn :=
+  mk_wrxn (L " test rxn ") [ex_mol_named (L " test mol ") ex_mol; ex_mol_named (L "second") ex_mol]
+          [ex_mol_named [] ex_mol] [ex_mol_named (L "$MOL") ex_mol].
+Definition ex_rxn3 : wrxn :=
+  mk_wrxn (L " test rxn ") [ex_mol_named (L " test mol ") ex3_mol; ex_mol_named (L "second") ex3_mol]
+          [ex_mol_named [] ex3_mol] [ex_mol_named (L "M  V30 BEGIN CTAB") ex3_mol].
+
+Definition with_title (t : option str) (p : parsed) : parsed3 :=
+  mk_parsed3 (mk_parsed t (p_atoms p) (p_bonds p) (p_stereo p) (p_log p)) [].
+Definition ex_rparsed2 : rparsed :=
+  mk_rparsed [with_title (Some (L "test mol")) ex_parsed; with_title (Some (L "second")) ex_parsed]
+             [with_title None ex_parsed] [with_title (Some (L "$MOL")) ex_parsed] (Some (L "test rxn")) 0.
+Definition ex_rparsed3 : rparsed :=
+  mk_rparsed [with_title None (p3 ex3_parsed); with_title None (p3 ex3_parsed)]
+             [with_title None (p3 ex3_parsed)] [with_title None (p3 ex3_parsed)] (Some (L "test rxn")) 0.
+
+Example ex_rxn2_roundtrip :
+  exists lines, rxn_lines_v2000 true ex_rxn2 = Ok lines /\ parse_rxn_v2000 (map add_nl lines ++ ex_tail) = Ok ex_rparsed2.
+Proof.
+  destruct (rxn_v2000_fields_roundtrip true ex_rxn2 [ex_fs; ex_fs] [ex_fs] [ex_fs]) as [lines [Hw Hp]].
+  - repeat (apply Forall2_cons; [apply ex_wf2|]); apply Forall2_nil.
+  - repeat (apply Forall2_cons; [apply ex_wf2|]); apply Forall2_nil.
+  - repeat (apply Forall2_cons; [apply ex_wf2|]); apply Forall2_nil.
+  - cbn. lia.
+  - cbn. lia.
+  - cbn. lia.
+  - discriminate.
+  - exists lines. split; [exact Hw|]. rewrite Hp. vm_compute. reflexivity.
+Qed.
+Example ex_rxn2_computed :
+  match rxn_lines_v2000 true ex_rxn2 with Ok l => parse_rxn_v2000 (map add_nl l ++ ex_tail) | Err e => Err e end = Ok ex_rparsed2.
+Proof. vm_compute. reflexivity. Qed.
+
+Example ex_rxn3_roundtrip :
+  exists lines, rxn_lines_v3000 true ex_rxn3 = Ok lines /\ parse_rxn_v3000 (map add_nl lines ++ ex_tail) = Ok ex_rparsed3.
+Proof.
+  destruct (rxn_v3000_fields_roundtrip true ex_rxn3 [ex3_fs; ex3_fs] [ex3_fs] [ex3_fs]) as [lines [Hw Hp]].
+  - repeat (apply Forall2_cons; [apply ex_wf3|]); apply Forall2_nil.
+  - repeat (apply Forall2_cons; [apply ex_wf3|]); apply Forall2_nil.
+  - repeat (apply Forall2_cons; [apply ex_wf3|]); apply Forall2_nil.
+  - discriminate.
+  - exists lines. split; [exact Hw|]. rewrite Hp. vm_compute. reflexivity.
+Qed.
+Example ex_rxn3_computed :
+  match rxn_lines_v3000 true ex_rxn3 with Ok l => parse_rxn_v3000 (map add_nl l ++ ex_tail) | Err e => Err e end = Ok ex_rparsed3.
+Proof. vm_compute. reflexivity. Qed.
+
+(* the framing of the written lines (the CTAB lines are those of ex3_written) *)
+Example ex_rxn3_frame :
+  match rxn_lines_v3000 true ex_rxn3 with
+  | Ok l => (firstn 7 l, lslice 21 25 l, lslice 35 39 l, lslice 52 56 l, skipn 69 l)
+  | Err _ => ([], [], [], [], [])
+  end =
+  ([L "$RXN V3000"; L " test rxn "; []; []; L "M  V30 COUNTS 2 1 1"; L "M  V30 BEGIN REACTANT"; L "M  V30 BEGIN CTAB"],
+   [L "M  V30 BEGIN CTAB"; L "M  V30 COUNTS 4 4 0 0 0"; L "M  V30 BEGIN ATOM"; L "M  V30 1 C 0.0000 1.2500 0 7 CHG=4"],
+   [L "M  V30 END CTAB"; L "M  V30 END REACTANT"; L "M  V30 BEGIN PRODUCT"; L "M  V30 BEGIN CTAB"],
+   [L "M  V30 END CTAB"; L "M  V30 END PRODUCT"; L "M  V30 BEGIN AGENT"; L "M  V30 BEGIN CTAB"],
+   [L "M  V30 END CTAB"; L "M  V30 END AGENT"; L "M  END"]).
+Proof. vm_compute. reflexivity. Qed.
+
+Print Assumptions rdf_rxn_text_lines.
+Print Assumptions erdf_rxn_text_lines.
+Print Assumptions rxn_v2000_fields_roundtrip.
+Print Assumptions rxn_v3000_fields_roundtrip.
+Print Assumptions ex_rxn2_roundtrip.
+Print Assumptions ex_rxn3_roundtrip.
